@@ -1,14 +1,15 @@
-// C25 cut-mode shim: FIXWriter::write / write_batch lock discipline (include/fix8/connection.hpp) and the pipelined
-// writer loop FIXWriter::execute (runtime/connection.cpp); Session::send_process is the critical-section witness (stub)
-#include <connection.cpp>          // found through -I<repo>/runtime: the repo's current working tree
+// C25 leaf-mode shim: FIXWriter::write / write_batch (inline header code of include/fix8/connection.hpp) with the scoped spin lock
+// inlined into these wrappers (CBMC's thread encoding cannot carry pointer-typed writes to address-taken locals, which the
+// out-of-line form of f8_scoped_lock_impl and of the vector iterators would need). Session::send_process and pthread_spin_* stay
+// external calls and are bound to the witness / the test-and-set model.
+#include <fix8/f8includes.hpp>
 using namespace FIX8;
-extern "C" {
-void vf_w_init(FIXWriter *w, int pmodel) { w->_pmodel = ProcessModel(pmodel); }
-bool vf_w_write(FIXWriter *w, Message *m, bool destroy) { return w->FIXWriter::write(m, destroy); }
-bool vf_w_write_ref(FIXWriter *w, Message *m) { return w->FIXWriter::write(*m); }
-unsigned long vf_w_write_batch(FIXWriter *w, const std::vector<Message *> *v, bool destroy) { return w->FIXWriter::write_batch(*v, destroy); }
-int vf_w_execute(FIXWriter *w, f8_thread_cancellation_token *tok) { return w->FIXWriter::execute(*tok); }
-void vf_tok_init(f8_thread_cancellation_token *tok) { new (tok) f8_thread_cancellation_token; }
-void vf_vec_init2(std::vector<Message *> *v, Message *a, Message *b) { new (v) std::vector<Message *>; v->reserve(2); v->push_back(a); v->push_back(b); }
-bool vf_msg_eob(const Message *m) { return m->get_end_of_batch(); }
-}
+#define VF_K extern "C" __attribute__((noinline))
+VF_K void vf_w_init(FIXWriter *w, int pmodel) { w->_pmodel = ProcessModel(pmodel); }
+VF_K bool vf_w_write(FIXWriter *w, Message *m, bool destroy) { return w->FIXWriter::write(m, destroy); }
+VF_K bool vf_w_write_ref(FIXWriter *w, Message *m) { return w->FIXWriter::write(*m); }
+VF_K unsigned long vf_w_write_batch2(FIXWriter *w, std::vector<Message *> *v, bool destroy) { return w->FIXWriter::write_batch(*v, destroy); }
+// a two-element vector over harness storage (begin/end/capacity pointers), built before the threads start
+VF_K void vf_vec_init2(std::vector<Message *> *v, Message **store, Message *a, Message *b)
+{ store[0] = a; store[1] = b; v->_M_impl._M_start = store; v->_M_impl._M_finish = store + 2; v->_M_impl._M_end_of_storage = store + 2; }
+VF_K bool vf_msg_eob(const Message *m) { return m->get_end_of_batch(); }
